@@ -26,7 +26,7 @@ Theorem c15_sequence_empty : forall s n, P "Sequence::size" (VObj s) [] = VZ n -
   run I "Sequence::empty" (VObj s) [] = VB (Z.eqb n 0).
 Proof.
   intros s n H Hn. unfold run. vm_compute. rewrite H.
-  destruct n; try reflexivity. lia.
+  destruct n; try reflexivity; try lia.
 Qed.
 
 Theorem c15_sequence_begin_end_position : forall s i,
@@ -107,7 +107,7 @@ Theorem c15_try_block : forall o h n,
   run I "Block::try_block" (VObj o) [] = VB (Z.ltb 0 n).
 Proof.
   intros o h n H1 H2 Hn. unfold run. vm_compute. rewrite H1. vm_compute. rewrite H2.
-  vm_compute. destruct n; try reflexivity. lia.
+  vm_compute. destruct n; try reflexivity; try lia.
 Qed.
 
 Theorem c15_template_parameter_type : forall o,
